@@ -5,6 +5,7 @@ import (
 	"fmt"
 	"os"
 	"runtime"
+	"runtime/debug"
 	"strconv"
 	"strings"
 	"testing"
@@ -162,6 +163,16 @@ func RunOne(t *testing.T, e Engine, cfg RunConfig, sc any) (res *RunResult) {
 		p.Prepare(cfg, sc)
 		defer p.Cleanup(cfg, sc)
 	}
+	// No garbage collection while a run executes (one before it, a memory limit as the safety net): a collection
+	// cycle stops and re-queues goroutines at moments that depend on real time and on what earlier runs of the process
+	// left on the heap, which is the one thing that made the same run take two different schedules in two processes.
+	runtime.GC()
+	oldGC := debug.SetGCPercent(-1)
+	oldLimit := debug.SetMemoryLimit(3 << 30)
+	defer func() {
+		debug.SetGCPercent(oldGC)
+		debug.SetMemoryLimit(oldLimit)
+	}()
 	synctest.Test(t, func(t *testing.T) {
 		res = e.Execute(t, cfg, sc)
 	})
